@@ -259,12 +259,19 @@ def runCase (c : Case) : String :=
   let ms := orDash (",".intercalate (tx.matched.map renderMatched))
   s!"{calls} ; i={renderIntr tx.intr} ; m={ms} ; tx={renderTxc tx.txc} ; hs={tx.highestSeverity} ; cb={orDash (",".intercalate (tx.errCb.map toString))}"
 
-/-- inputs outside the modelled fragment: lowercase/uppercase are modelled on ASCII only -/
+/-- @rx arguments of the case: each must be inside the regex fragment (and free of macros) -/
+def ruleRxArgs (r : Rule) : List Bytes :=
+  r.links.filterMap fun l => match l.op with
+    | some o => if o.name == "rx" then some (o.arg.flatMap fun t => match t with | .text b => b | .var _ _ orig => [0x25, 0x7b] ++ orig ++ [0x7d]) else none
+    | none => none
+
 def rulePatterns (r : Rule) : List Bytes :=
   r.links.flatMap fun l =>
     (l.targets.flatMap fun t => t.rx.toList ++ t.exc.flatMap (·.rx.toList)) ++
     (l.nacts.flatMap fun a => match a with | .ctlRemoveTargetById _ _ _ e => e.rx.toList | _ => [])
 
+/-- inputs outside the modelled fragment: lowercase/uppercase are modelled on ASCII only; regex keys and
+    @rx arguments outside the regex fragment -/
 def outsideModel (c : Case) : Bool :=
   let nonAscii (ps : List (Bytes × Bytes)) := ps.any fun p => !(p.1.all isAscii && p.2.all isAscii)
   let nonAsciiKey (ps : List (Bytes × Bytes)) := ps.any fun p => !p.1.all isAscii
@@ -282,7 +289,13 @@ def outsideModel (c : Case) : Bool :=
     !(v1.all isAscii && v2.all isAscii && v3.all isAscii)
   let pct (ps : List (Bytes × Bytes)) := ps.any fun p => badDec p.1 || badDec p.2
   let decoded := hasTf "urldecode" && (pct c.get || pct c.post || pct c.hdr)
-  (caseTf && (nonAscii c.get || nonAscii c.post || nonAscii c.hdr || decoded)) || rxOut
+  -- @rx: the expression inside the fragment, and all request data ASCII (a transformed value stays ASCII
+  -- unless urlDecode makes it otherwise: `decoded`)
+  let rxArgs := c.rules.flatMap ruleRxArgs
+  let rxOpOut := !rxArgs.isEmpty &&
+    (rxArgs.any (fun p => (Regex.parse {} (Bytes.ofString "(?sm)" ++ p)).isNone) ||
+     nonAscii c.get || nonAscii c.post || nonAscii c.hdr || decoded)
+  (caseTf && (nonAscii c.get || nonAscii c.post || nonAscii c.hdr || decoded)) || rxOut || rxOpOut
 
 def modelIn (rxm : RxMode) (args : List String) : Option String :=
   match args with
